@@ -215,4 +215,89 @@ example : (runLoop (build 1 [(10, false), (11, true), (12, true)]) [1, 3, 1]).1.
     (runLoop (build 1 [(10, false), (11, true), (12, true)]) [1, 3, 1]).1.cancelled = [11] ∧
     (runLoop (build 1 [(10, false), (11, true), (12, true)]) [1, 3, 1]).1.succ = [] := by decide
 
+/-! ### The registry clauses: who is eligible for a publish, and what the rejected calls leave behind
+
+  `subscribe` / `unsubscribe` return `none` where the code panics; the state is then, by construction, the one before the call
+  (the harness compares it through `VerifNotifierSize` and the deliveries of the next publish: `dupsub`, unmatched `unsub`). -/
+
+/-- a publish under `key` with value class `accepts` is delivered only to subscriptions of that key, whose element type accepts the
+    value, and whose context (if any) is not cancelled — nothing goes to other keys or incompatible element types -/
+theorem eligible_only_matching (s : St) (key : Nat) (accepts : Nat → Bool) (y : Sub) (h : y ∈ eligible s key accepts) :
+    y ∈ s.subs ∧ y.key = key ∧ accepts y.elem = true ∧ ¬(y.hasCtx = true ∧ y.ctxCancelled = true) := by
+  simp only [eligible, List.mem_filter, Bool.and_eq_true, beq_iff_eq, Bool.not_eq_true'] at h
+  refine ⟨h.1, h.2.1.1, h.2.2, ?_⟩
+  intro hc
+  have := h.2.1.2
+  simp [hc.1, hc.2] at this
+
+/-- … and every such subscription IS eligible -/
+theorem matching_is_eligible (s : St) (key : Nat) (accepts : Nat → Bool) (y : Sub) (hy : y ∈ s.subs) (hk : y.key = key)
+    (ha : accepts y.elem = true) (hc : ¬(y.hasCtx = true ∧ y.ctxCancelled = true)) : y ∈ eligible s key accepts := by
+  simp only [eligible, List.mem_filter, Bool.and_eq_true, beq_iff_eq, Bool.not_eq_true']
+  refine ⟨hy, ⟨hk, ?_⟩, ha⟩
+  cases h1 : y.hasCtx <;> cases h2 : y.ctxCancelled <;> simp_all
+
+/-- a duplicate Subscribe (same key, same target) is rejected exactly when such a subscription exists -/
+theorem duplicate_subscribe_rejected (s : St) (x : Sub) :
+    subscribe s x = none ↔ ∃ y ∈ s.subs, y.key = x.key ∧ y.id = x.id := by
+  unfold subscribe
+  split
+  · rename_i h
+    simp only [List.any_eq_true, Bool.and_eq_true, beq_iff_eq] at h
+    exact ⟨fun _ => h, fun _ => rfl⟩
+  · rename_i h
+    simp only [List.any_eq_true, Bool.and_eq_true, beq_iff_eq] at h
+    exact ⟨(fun hn => by cases hn), fun hex => absurd hex h⟩
+
+/-- an accepted Subscribe adds exactly that subscription and keeps every other one (with its own context state) -/
+theorem subscribe_adds_only_that (s s' : St) (x : Sub) (h : subscribe s x = some s') : s'.subs = s.subs ++ [x] := by
+  unfold subscribe at h
+  split at h
+  · cases h
+  · cases h; rfl
+
+/-- an unmatched Unsubscribe is rejected exactly when no such subscription exists -/
+theorem unmatched_unsubscribe_rejected (s : St) (key id : Nat) :
+    unsubscribe s key id = none ↔ ¬∃ y ∈ s.subs, y.key = key ∧ y.id = id := by
+  unfold unsubscribe
+  split
+  · rename_i h
+    simp only [List.any_eq_true, Bool.and_eq_true, beq_iff_eq] at h
+    exact ⟨(fun hn => by cases hn), fun hne => absurd h hne⟩
+  · rename_i h
+    simp only [List.any_eq_true, Bool.and_eq_true, beq_iff_eq] at h
+    exact ⟨fun _ => h, fun _ => rfl⟩
+
+/-- AFTER UNSUBSCRIBE RETURNS THE TARGET RECEIVES NOTHING FROM LATER PUBLISHES: it is eligible for no publish of that key, whatever
+    the value; every other subscription is exactly as eligible as before -/
+theorem unsubscribed_is_never_eligible (s s' : St) (key id : Nat) (h : unsubscribe s key id = some s') (accepts : Nat → Bool) :
+    (∀ y ∈ eligible s' key accepts, y.id ≠ id) ∧
+    (∀ k y, ¬(y.key = key ∧ y.id = id) → (y ∈ eligible s' k accepts ↔ y ∈ eligible s k accepts)) := by
+  unfold unsubscribe at h
+  split at h
+  · cases h
+    constructor
+    · intro y hy
+      simp only [eligible, List.mem_filter, Bool.and_eq_true, beq_iff_eq, Bool.not_eq_true', Bool.and_eq_false_imp] at hy
+      intro hid
+      have := hy.1.2
+      simp [hy.2.1.1, hid] at this
+    · intro k y hne
+      simp only [eligible, List.mem_filter, Bool.and_eq_true, beq_iff_eq, Bool.not_eq_true']
+      constructor
+      · rintro ⟨⟨hm, _⟩, rest⟩
+        exact ⟨hm, rest⟩
+      · rintro ⟨hm, rest⟩
+        refine ⟨⟨hm, ?_⟩, rest⟩
+        cases hk : (y.key == key) <;> cases hi : (y.id == id) <;> simp_all
+  · cases h
+
+/-- non-vacuity: two subscriptions under key 1 (one with a cancelled context), one under key 2; a duplicate is rejected, the
+    cancelled one and the other key's are not eligible; after Unsubscribe nobody is -/
+example :
+    let s : St := { subs := [⟨1, 10, 0, false, false⟩, ⟨1, 11, 0, true, true⟩, ⟨2, 12, 0, false, false⟩] }
+    subscribe s ⟨1, 10, 0, true, false⟩ = none ∧ (eligible s 1 (fun _ => true)).map (·.id) = [10] ∧
+    ((unsubscribe s 1 10).map fun s' => (eligible s' 1 (fun _ => true)).map (·.id)) = some [] ∧
+    unsubscribe s 2 10 = none := by decide
+
 end BB.Props.C15
